@@ -2,7 +2,7 @@
 import z3
 from .values import *
 from . import ops
-from .ctx import PyExc
+from .ctx import PyExc, PathEnd
 from .dsl import call_clause, NS, S
 from .heap import Snapshot, havoc_path, fresh_like
 from .interp import Frame
@@ -102,7 +102,11 @@ def apply_contract(ip, contract, info, args, kwargs):
             # the clause speaks about ghost state of the callee's own proof: not usable here (assuming less is sound)
             ip.ctx.notes.append('postcondition %s of %s not usable at this call site' % (label, contract.qualname))
             continue
-        ctx.assume(g)
+        try:
+            ctx.assume(g)
+        except PathEnd:
+            # a postcondition that is literally false here would silently end the path: never a proof
+            raise Unsupported('postcondition %s of %s evaluates to false at its call site in %s' % (label, contract.qualname, ip.verifying))
         if feasible_before and not ctx.feasible(z3.BoolVal(True)):
             raise Unsupported('postcondition %s of %s is inconsistent with the state at its call site in %s' % (label, contract.qualname, ip.verifying))
     # further instances of the callee's universally quantified postconditions (chosen by the caller's contract)
